@@ -29,14 +29,17 @@ type scenario struct {
 	Spare      int      `json:"spare"` // spare capacity given to each slice of the File
 	Goroutines int      `json:"goroutines"`
 	Repeat     int      `json:"repeat"`
+	Pre        [][]string `json:"pre"` // option sets Generate is called with, sequentially, before the measured calls (history)
 }
 
-func settings(sc *scenario) bebop.GenerateSettings {
+func settings(sc *scenario) bebop.GenerateSettings { return settingsOf(sc, sc.Opts) }
+
+func settingsOf(sc *scenario, opts []string) bebop.GenerateSettings {
 	s := bebop.GenerateSettings{PackageName: "gen"}
 	if sc.Mode == "combined" {
 		s.ImportGenerationMode = bebop.ImportGenerationModeCombined
 	}
-	for _, o := range sc.Opts {
+	for _, o := range opts {
 		switch o {
 		case "AlwaysUsePointerReceivers":
 			s.AlwaysUsePointerReceivers = true
@@ -106,6 +109,10 @@ func main() {
 	}
 	f = withSpare(f, sc.Spare)
 	before := snapshot(f)
+	for _, pre := range sc.Pre {
+		var sink bytes.Buffer
+		_ = f.Generate(&sink, settingsOf(sc, pre))
+	}
 	deep := reflect.ValueOf(f).Interface()
 	_ = deep
 	results := make([][]string, sc.Goroutines)
